@@ -2,9 +2,12 @@
    case  := (op ...)            ops applied to an empty MafRecord
    op    := (0 key col) | (1 col) | (2 key)        set / add / del
    key   := (0 i) | (1 str) | (2 col) | (3) | (4)  int / name / column / None / other type
-   col   := (str optidx val)
-   reply := ((outcome obs) ...) one per op, obs = state after the op *)
-From MafVerif Require Import lib.Base model.RecordOps.
+   col   := (str optidx val)                       a new column object
+          | (9 h)    the h-th object created so far (mod their number)
+          | (8 j)    the object stored in slot j
+   reply := ((outcome obs) ...) one per op, obs = state after the op, the
+            caller's objects (in creation order) last *)
+From MafVerif Require Import lib.Base model.RecordOps model.RecordPool.
 
 Definition dec_col (s : sexp) : option (col Z) :=
   match s with
@@ -16,23 +19,32 @@ Definition dec_col (s : sexp) : option (col Z) :=
   | _ => None
   end.
 
-Definition dec_key (s : sexp) : option (key Z) :=
+Definition dec_cref (s : sexp) : option (cref Z) :=
   match s with
-  | L [A 0; A i] => Some (KInt i)
-  | L [A 1; n] => option_map KStr (as_str n)
-  | L [A 2; c] => option_map KCol (dec_col c)
-  | L [A 3] => Some KNone
-  | L [A 4] => Some KOther
+  | L [A 9; A h] => if h <? 0 then None else Some (CPool (Z.to_nat h))
+  | L [A 8; A j] => if j <? 0 then None else Some (CSlot (Z.to_nat j))
+  | _ => option_map CLit (dec_col s)
+  end.
+
+Definition dec_key (s : sexp) : option (pkey Z) :=
+  match s with
+  | L [A 0; A i] => Some (PK (KInt i))
+  | L [A 1; n] => option_map (fun n => PK (KStr n)) (as_str n)
+  | L [A 2; c] => option_map PKRef (dec_cref c)
+  | L [A 3] => Some (PK KNone)
+  | L [A 4] => Some (PK KOther)
   | _ => None
   end.
 
-Definition dec_op (s : sexp) : option (op Z) :=
+Definition dec_op (s : sexp) : option (pop Z) :=
   match s with
-  | L [A 0; k; c] => match dec_key k, dec_col c with Some k', Some c' => Some (OSet k' c') | _, _ => None end
-  | L [A 1; c] => option_map OAdd (dec_col c)
-  | L [A 2; k] => option_map ODel (dec_key k)
+  | L [A 0; k; c] => match dec_key k, dec_cref c with Some k', Some c' => Some (PSet k' c') | _, _ => None end
+  | L [A 1; c] => option_map PAdd (dec_cref c)
+  | L [A 2; k] => option_map PDel (dec_key k)
   | _ => None
   end.
+
+Definition dflt_col : col Z := {| ckey := [65%N]; cidx := None; cval := 0 |}.
 
 Definition enc_col (c : col Z) : sexp := L [s_of_str (ckey c); s_of_opt A (cidx c); A (cval c)].
 
@@ -42,19 +54,25 @@ Definition enc_obs (r : rec Z) : sexp :=
       s_of_list (fun kv => L [s_of_str (fst kv); enc_col (snd kv)]) (rdict r);
       s_of_list (s_of_opt enc_col) (rlist r) ].
 
+Definition enc_pobs (st : rec Z * list (col Z)) : sexp :=
+  match enc_obs (fst st) with
+  | L xs => L (xs ++ [s_of_list enc_col (snd st)])
+  | x => x
+  end.
+
 Definition enc_out (o : res unit) : sexp :=
   match o with Ok _ => L [] | Raise e => s_of_exn e end.
 
-Fixpoint run_obs (r : rec Z) (ops : list (op Z)) : list sexp :=
+Fixpoint run_obs (st : rec Z * list (col Z)) (ops : list (pop Z)) : list sexp :=
   match ops with
   | [] => []
   | o :: rest =>
-      let '(r', out) := step r o in
-      L [enc_out out; enc_obs r'] :: run_obs r' rest
+      let '(st', out) := pstep dflt_col st o in
+      L [enc_out out; enc_pobs st'] :: run_obs st' rest
   end.
 
 Definition dispatch (s : sexp) : sexp :=
   match as_listof dec_op s with
-  | Some ops => L (run_obs empty_rec ops)
+  | Some ops => L (run_obs (empty_rec, []) ops)
   | None => s_bad
   end.
